@@ -4,7 +4,9 @@
    the four blocks cut out by the source are Solve.part (entries addressed through the position of the
    pin in the structure's pin list), the reassembled matrix is Solve.assemble, the new index of a pin is its
    position in (kept pins of the first operand) ++ (kept pins of the second), and the selection routines
-   keep the other pins in their order (Solve.keep). *)
+   keep the other pins in their order (Solve.keep).  Last section: the pins Structure.join hands to them
+   (get_out_to / get_in_from / the pairing loop) are the entries of the first operand's link table that point into the
+   second operand, paired with their recorded partners, and those are exactly Solve.links. *)
 Section JoinSrcProof.
 Variable K : cfield.
 Context {L : cfield_laws K}.
@@ -187,3 +189,113 @@ Print Assumptions back_index_is_position.
 Print Assumptions sel_out_src_is_keep.
 Print Assumptions sel_in_src_is_keep.
 Print Assumptions join_pins_src_is_keep.
+
+(* ---- which pins are joined: Structure.get_out_to / get_in_from / the selection in Structure.join ---- *)
+Section JoinLinksProof.
+Variable K : cfield.
+
+Definition sel_to (targets : list nat) (it : spin * spin) : bool := idmem (fst (snd it)) targets.
+
+Lemma fold_sel_app {A} (f : spin * spin -> bool) (g : spin * spin -> A) : forall l acc,
+  fold_left (fun pl it => if f it then pl ++ [g it] else pl) l acc = acc ++ map g (filter f l).
+Proof.
+  induction l as [|it r IH]; intros acc; simpl; [rewrite app_nil_r; reflexivity|].
+  rewrite IH. destruct (f it); simpl; [rewrite <- app_assoc; reflexivity | reflexivity].
+Qed.
+
+Theorem get_out_to_src_is_filter cdA targets :
+  get_out_to_src cdA targets = map fst (filter (sel_to targets) cdA).
+Proof. unfold get_out_to_src. rewrite (fold_sel_app (sel_to targets) fst). reflexivity. Qed.
+
+Theorem get_in_from_src_is_filter cdA targets :
+  get_in_from_src cdA targets = map snd (filter (sel_to targets) cdA).
+Proof. unfold get_in_from_src. rewrite (fold_sel_app (sel_to targets) snd). reflexivity. Qed.
+
+Lemma existsb_false {A} (f : A -> bool) l : existsb f l = false -> forall x, In x l -> f x = false.
+Proof.
+  intros E x Hx. destruct (f x) eqn:Ef; [|reflexivity]. rewrite <- E. symmetry. apply existsb_exists. exists x. split; assumption.
+Qed.
+
+Lemma cget_In x y d : NoDup (map fst d) -> In (x, y) d -> cget x d = Some y.
+Proof.
+  induction d as [|it r IH]; simpl; [tauto|]. intros Hn [He|Hin].
+  - subst it. simpl. rewrite spin_eqb_refl. reflexivity.
+  - inversion Hn as [|? ? Hni Hr]; subst. destruct (spin_eqb_spec (fst it) x) as [Hx|Hx].
+    + exfalso. apply Hni. subst x. apply (in_map fst) in Hin. exact Hin.
+    + apply IH; assumption.
+Qed.
+
+Lemma cget_Some_In x y d : cget x d = Some y -> In (x, y) d.
+Proof.
+  induction d as [|it r IH]; simpl; [discriminate|].
+  destruct (spin_eqb_spec (fst it) x) as [Hx|Hx].
+  - intros H. injection H as <-. left. subst x. destruct it; reflexivity.
+  - intros H. right. apply IH. exact H.
+Qed.
+
+(* a dict: distinct keys.  When join accepts, the pins of the first operand it hands to sel_output and the pins of the
+   second it hands to sel_input are, position by position, the entries of the first operand's link table that point into
+   the second operand — in the table's order — and the second operand's table points back for each of them *)
+Theorem join_links_src_selects cdA cdB targets lo ti :
+  NoDup (map fst cdA) ->
+  join_links_src cdA cdB targets = Some (lo, ti) ->
+  combine lo ti = filter (sel_to targets) cdA /\
+  List.length lo = List.length ti /\
+  forall x y, In (x, y) (combine lo ti) -> cget y cdB = Some x.
+Proof.
+  intros Hn. unfold join_links_src. cbv zeta.
+  rewrite get_out_to_src_is_filter, get_in_from_src_is_filter.
+  match goal with |- (if ?b then _ else _) = _ -> _ => destruct b; [discriminate|] end.
+  match goal with |- (if ?b then _ else _) = _ -> _ => destruct b eqn:E1; [discriminate|] end.
+  match goal with |- (if ?b then _ else _) = _ -> _ => destruct b eqn:E2; [discriminate|] end.
+  intros H. injection H as <- <-.
+  assert (Hsub : forall it, In it (filter (sel_to targets) cdA) -> cget (fst it) cdA = Some (snd it)).
+  { intros [x y] Hin. apply filter_In in Hin. apply cget_In; [exact Hn | exact (proj1 Hin)]. }
+  assert (Hmap : map (fun pin => match cget pin cdA with Some y => y | None => dpin end)
+                     (map fst (filter (sel_to targets) cdA)) = map snd (filter (sel_to targets) cdA)).
+  { rewrite map_map. apply map_ext_in. intros it Hin. rewrite (Hsub it Hin). reflexivity. }
+  rewrite Hmap.
+  assert (Hc : forall l : list (spin * spin), combine (map fst l) (map snd l) = l).
+  { induction l as [|[a b] r IH]; simpl; [reflexivity | rewrite IH; reflexivity]. }
+  rewrite Hc. split; [reflexivity|]. split; [rewrite !map_length; reflexivity|].
+  intros x y Hin.
+  assert (Hx : In x (map fst (filter (sel_to targets) cdA))).
+  { apply (in_map fst) in Hin. exact Hin. }
+  pose proof (existsb_false _ _ E1 x Hx) as Hne. cbv beta in Hne.
+  pose proof (Hsub (x, y) Hin) as Hs. simpl in Hs. rewrite Hs in Hne.
+  destruct (cget y cdB) as [z|] eqn:Ez; [|discriminate].
+  destruct (spin_eqb_spec x z) as [->|Hxz]; [reflexivity | discriminate].
+Qed.
+
+(* the selected entries are exactly the model's links between the two operands (Solve.links), whenever the first operand's
+   table records the network's connections of its own pins and the second operand's pins are the free pins of `targets` *)
+Theorem join_links_src_are_links (cs : list conn) (A B : lst K) cdA targets :
+  (forall x y, In (x, y) cdA <-> In x (l_pins A) /\ partner cs x = Some y) ->
+  (forall x y, In (x, y) cdA -> mem y (l_pins B) = idmem (fst y) targets) ->
+  forall x y, In (x, y) (filter (sel_to targets) cdA) <-> In (x, y) (links cs A B).
+Proof.
+  intros Hrep HB x y. unfold links. rewrite filter_In, in_flat_map. unfold sel_to. simpl. split.
+  - intros [Hin Hs]. pose proof (proj1 (Hrep x y) Hin) as [HA Hp]. exists x. split; [exact HA|].
+    rewrite Hp. rewrite (HB x y Hin), Hs. left. reflexivity.
+  - intros [x' [HA Hin]]. destruct (partner cs x') as [y'|] eqn:Hp; [|destruct Hin].
+    destruct (mem y' (l_pins B)) eqn:Hm; [|destruct Hin]. destruct Hin as [He|[]]. injection He as -> ->.
+    assert (Hc : In (x, y) cdA) by (apply Hrep; split; assumption).
+    split; [exact Hc|]. rewrite <- (HB x y Hc). exact Hm.
+Qed.
+
+(* the hypotheses are satisfiable and the routine accepts: two of the three links of structure 1 go to structure 2 *)
+Example join_links_src_nonvacuous :
+  join_links_src [((1, 0), (2, 1)); ((1, 1), (3, 0)); ((1, 2), (2, 0))]%nat [((2, 1), (1, 0)); ((2, 0), (1, 2))]%nat [2%nat]
+  = Some ([(1, 0); (1, 2)]%nat, [(2, 1); (2, 0)]%nat).
+Proof. reflexivity. Qed.
+(* ... and refuses when the second table does not point back *)
+Example join_links_src_refuses :
+  join_links_src [((1, 0), (2, 1))]%nat [((2, 1), (1, 5))]%nat [2%nat] = None.
+Proof. reflexivity. Qed.
+
+End JoinLinksProof.
+
+Print Assumptions get_out_to_src_is_filter.
+Print Assumptions get_in_from_src_is_filter.
+Print Assumptions join_links_src_selects.
+Print Assumptions join_links_src_are_links.
